@@ -293,6 +293,10 @@ impl Fiber {
 
     self.channels.clear();
 
+    // a finished fiber has nobody left to wake. Letting go of its launcher keeps a relay of
+    // fibers, each launching the next, from holding on to every fiber that came before
+    self.parent = None;
+
     waiter
   }
 
